@@ -140,7 +140,8 @@ impl<'a> Iterator for RangedBytesIterator<'a> {
         }
         let bytes = self.cursor.read_bytes(self.size).ok()?;
         let index = self.index;
-        self.index += 1;
+        // a range may end at index 65535: the increment after the last item must not overflow
+        self.index = self.index.saturating_add(1);
         self.remaining -= 1;
         Some((bytes, index))
     }
